@@ -27,7 +27,8 @@ Record fixes := {
   fx_nan : bool;            (* C08-nan.diff *)
   fx_segnr404 : bool;       (* C08-segment-number-404.diff *)
   fx_time404 : bool;        (* C08-time-404.diff *)
-  fx_mpd_status : bool      (* C08-mpd-status.diff *)
+  fx_mpd_status : bool;     (* C08-mpd-status.diff *)
+  fx_stop_order : bool      (* C08-stop-before-start.diff *)
 }.
 
 (** The tree as it is now (the lead applied the repairs on 2026-10-01, see /verif/.work/fixes_note.md). *)
@@ -51,7 +52,8 @@ Definition current : fixes := {|
   fx_nan := false;             (* proposed, not applied *)
   fx_segnr404 := false;        (* proposed, not applied *)
   fx_time404 := false;         (* proposed, not applied *)
-  fx_mpd_status := false       (* proposed, not applied *)
+  fx_mpd_status := false;      (* proposed, not applied *)
+  fx_stop_order := false       (* proposed, not applied *)
 |}.
 
 Definition all_fixed : fixes := {|
@@ -59,17 +61,17 @@ Definition all_fixed : fixes := {|
   fx_snr := true; fx_traffic_idx := true; fx_chunkdur := true; fx_chunk_cap := true; fx_subs_startnr := true;
   fx_status_startnr := true; fx_status_cycle := true; fx_drm := true; fx_kid := true;
   fx_urlgen_create := true; fx_urlgen_drms := true; fx_nan := true; fx_segnr404 := true; fx_time404 := true;
-  fx_mpd_status := true |}.
+  fx_mpd_status := true; fx_stop_order := true |}.
 
 Definition none_fixed : fixes := {|
   fx_stoprel := false; fx_annexI := false; fx_loss := false; fx_periods := false; fx_subsdur := false;
   fx_snr := false; fx_traffic_idx := false; fx_chunkdur := false; fx_chunk_cap := false; fx_subs_startnr := false;
   fx_status_startnr := false; fx_status_cycle := false; fx_drm := false; fx_kid := false;
   fx_urlgen_create := false; fx_urlgen_drms := false; fx_nan := false; fx_segnr404 := false; fx_time404 := false;
-  fx_mpd_status := false |}.
+  fx_mpd_status := false; fx_stop_order := false |}.
 
 (** [current] plus the four status-class repairs proposed on 2026-10-01 (C08-nan, -segment-number-404,
-    -time-404, -mpd-status): what [current] becomes when they are applied. *)
+    -time-404, -mpd-status) and C08-stop-before-start: what [current] becomes when they are applied. *)
 Definition current_plus_status : fixes := {|
   fx_stoprel := fx_stoprel current; fx_annexI := fx_annexI current; fx_loss := fx_loss current;
   fx_periods := fx_periods current; fx_subsdur := fx_subsdur current; fx_snr := fx_snr current;
@@ -77,4 +79,4 @@ Definition current_plus_status : fixes := {|
   fx_subs_startnr := fx_subs_startnr current; fx_status_startnr := fx_status_startnr current;
   fx_status_cycle := fx_status_cycle current; fx_drm := fx_drm current; fx_kid := fx_kid current;
   fx_urlgen_create := fx_urlgen_create current; fx_urlgen_drms := fx_urlgen_drms current;
-  fx_nan := true; fx_segnr404 := true; fx_time404 := true; fx_mpd_status := true |}.
+  fx_nan := true; fx_segnr404 := true; fx_time404 := true; fx_mpd_status := true; fx_stop_order := true |}.
